@@ -34,7 +34,7 @@ type c10step struct {
 }
 
 var c10Regexps = []string{"main", "foo", "bar|baz", "runtime", "lib", "^main\\.run$", "zzz", "T", "malloc", "\\.go", "main(", "[a", "*x"}
-var c10TagRx = []string{"v1", "tenant", "k=v1", "k2", "bytes", "1kb:", "n=16:4096", "a b", "zzz"}
+var c10TagRx = []string{"v1", "tenant", "k=v1", "k2", "bytes", "1kb:", "n=16:4096", "a b", "zzz", "tenant=v1", "k2=v1", "v2", "k=v2", "tenant=v2", "v1$", "k=v1$"}
 
 // tagshow / taghide take plain regexps over tag names; the last ones do not compile.
 var c10WebTagRx = []string{"tenant", "k", "k2", "bytes|n", "zzz", "(", "[k"}
